@@ -246,6 +246,17 @@ func TestBorderline(t *testing.T) {
 		cls := "rejected"
 		if accepted {
 			cls = "accepted:" + strings.SplitN(res.Out.Class, ":", 2)[0]
+			// a value stored in an any carries a concrete type: every type typeof reports there is spelled in full
+			for _, l := range strings.Split(rec.PrintText(res.Trace), "\n") {
+				if !strings.HasPrefix(l, "typeof-any: ") || fl != nil {
+					continue
+				}
+				for _, ty := range strings.Fields(strings.TrimPrefix(l, "typeof-any: ")) {
+					if !concreteType.MatchString(ty) || ty == "any" {
+						fl = &h.Failure{Kind: "typeof-any", Detail: fmt.Sprintf("typeof of a value held in an any reports %q, which is not a complete concrete type", ty), Src: src, Case: c}
+					}
+				}
+			}
 		}
 		labels := []string{"source:borderline", "borderline:" + cls}
 		for _, o := range ops {
